@@ -16,6 +16,8 @@ import (
 	"strings"
 	"time"
 
+	"github.com/arana-db/parser/ast"
+
 	"seata.apache.org/seata-go/pkg/datasource/sql/datasource"
 	"seata.apache.org/seata-go/pkg/datasource/sql/exec/at"
 	"seata.apache.org/seata-go/pkg/datasource/sql/types"
@@ -131,6 +133,10 @@ var c18Stmts = []c18Stmt{
 	{"update-composite-key", "UPDATE t SET a = ? WHERE id = ? AND uid = ?", 3, true, true, nil},
 	{"delete-composite-key", "DELETE FROM t WHERE uid = ?", 1, true, true, nil},
 	{"insert-composite-reordered", "INSERT INTO t (uid, a, id) VALUES (?, ?, ?)", 3, true, true, map[int]int64{0: 31, 2: 30}},
+	{"insert-composite-two-rows", "INSERT INTO t (id, uid, a) VALUES (?, ?, ?), (?, ?, ?)", 6, true, true, map[int]int64{0: 30, 1: 31, 3: 40, 4: 41}},
+	{"update-order-limit", "UPDATE t SET a = ? WHERE b > ? ORDER BY a DESC LIMIT 1", 2, true, false, nil},
+	{"delete-order-limit-arg", "DELETE FROM t WHERE a <> ? ORDER BY b LIMIT ?", 2, true, false, map[int]int64{1: 1}},
+	{"delete-all-rows", "DELETE FROM t WHERE a = a", 0, true, false, nil},
 }
 
 func c18RowKey(d *aDB, cells []int64) string {
@@ -302,6 +308,12 @@ func c18Run(checkImages, checkLocks bool) {
 	}
 }
 
+var c03Queries = []string{
+	"SELECT * FROM t WHERE a > ? FOR UPDATE",
+	"SELECT * FROM t WHERE a > ? ORDER BY b DESC LIMIT 1 FOR UPDATE",
+	"SELECT id, a, b FROM t WHERE NOT (a > ?) ORDER BY a FOR UPDATE",
+}
+
 // VerifC03SelectForUpdate: a locking read returns rows only after the
 // coordinator confirmed they are lockable.
 func VerifC03SelectForUpdate() {
@@ -320,13 +332,15 @@ func VerifC03SelectForUpdate() {
 	}
 	var rows driver.Rows
 	panicked := false
+	form := vrt.Choice("sfu.form", len(c03Queries))
+	q := c03Queries[form]
 	func() {
 		defer func() {
 			if recover() != nil {
 				panicked = true
 			}
 		}()
-		rows, err = w.c.QueryContext(w.ctx, "SELECT * FROM t WHERE a > ? FOR UPDATE", args)
+		rows, err = w.c.QueryContext(w.ctx, q, args)
 	}()
 	vrt.Observe("stub.bad", w.d.bad)
 	if err != nil {
@@ -337,20 +351,24 @@ func VerifC03SelectForUpdate() {
 	if panicked {
 		return
 	}
-	// the rows the query matches
+	// the rows the locking read selects (the stub's own evaluation of the statement)
 	var matched []aRow
-	for _, r := range w.d.rows {
-		if r.present && r.cells[1] > args[0].Value.(int64) {
-			matched = append(matched, r)
+	if sel, ok := w.d.parse(q).(*ast.SelectStmt); ok {
+		for _, i := range w.d.matching(sel.Where, sel.OrderBy, sel.Limit, args) {
+			matched = append(matched, w.d.rows[i])
 		}
 	}
 	if err == nil && rows != nil {
 		n := 0
 		dest := make([]driver.Value, 3)
+		sameRows := true
 		for rows.Next(dest) == nil {
+			if n < len(matched) && dest[0] != driver.Value(matched[n].cells[0]) {
+				sameRows = false
+			}
 			n++
 		}
-		vrt.Assert(n == len(matched), "c03/sfu-returns-the-matching-rows")
+		vrt.Assert(n == len(matched) && sameRows, "c03/sfu-returns-the-matching-rows")
 		if len(matched) > 0 {
 			vrt.Reach("c03/sfu-rows-returned")
 			vrt.Assert(w.lockable, "c03/sfu-rows-only-when-lockable")
